@@ -37,6 +37,34 @@ Proof.
   rewrite Em. cbn [new_pos move]. lia.
 Qed.
 
+(* every board size, at most 64 pieces in the game (the standard sets of 3x3 .. 6x6) *)
+Theorem analyze_first_move_legal_64 : forall cfg, builtin_eval cfg ->
+  forall k s p sk pv v d acc c,
+  SJ s -> base_ok p -> is_over p = false -> (total p <= 64)%N -> move p + c_depth cfg <= max_terminal_ply ->
+  seed_legal s p ->
+  analyze_cancel gen_basis cfg k s p = (sk, (pv, v, d, acc, c)) ->
+  SJ sk /\ (pv = [] \/ head_legal p pv) /\ (c = false -> 0 < c_depth cfg -> head_legal p pv).
+Proof.
+  intros cfg HE k s p sk pv v d acc c HS Hb HO Ht Hm HSD H.
+  apply (analyze_first_move_legal_seed cfg HE k s p sk pv v d acc c HS Hb HO); [|exact Hm|exact HSD|exact H].
+  apply withinP_total64; [apply Hb|exact Ht].
+Qed.
+
+Theorem analyze_first_move_legal_game64 : forall cfg, builtin_eval cfg ->
+  forall sz bwt stones caps ms p, (3 <= sz <= 8)%N -> (0 < stones)%N -> (2 * (stones + caps) <= 64)%N ->
+  replay (new_pos sz bwt stones caps) ms = Ok p -> is_over p = false -> Z.of_nat (length ms) + c_depth cfg <= max_terminal_ply ->
+  forall k s sk pv v d acc c, SJ s -> seed_legal s p ->
+  analyze_cancel gen_basis cfg k s p = (sk, (pv, v, d, acc, c)) ->
+  SJ sk /\ (pv = [] \/ head_legal p pv) /\ (c = false -> 0 < c_depth cfg -> head_legal p pv).
+Proof.
+  intros cfg HE sz bwt stones caps ms p Hsz Hst Hsum HR HO Hlen k s sk pv v d acc c HS HSD H.
+  pose proof (base_ok_new sz bwt stones caps ltac:(lia) ltac:(lia) ltac:(lia) ltac:(lia)) as B0.
+  destruct (new_ok sz bwt stones caps ltac:(lia) ltac:(lia) ltac:(lia)) as (_ & _ & T0).
+  destruct (base_ok_replay ms _ p B0 ltac:(rewrite T0; lia) HR) as (Hb & Em & Es & Et).
+  apply (analyze_first_move_legal_64 cfg HE k s p sk pv v d acc c HS Hb HO); [rewrite Et, T0; lia| |exact HSD|exact H].
+  rewrite Em. cbn [new_pos move]. lia.
+Qed.
+
 (* ---- computed examples ---- *)
 (* depth 4, sorted, null move, slide reduction and multi-cut on, built-in evaluator; q4 = SearchNeg5.q4 (3x3 after a1 c3 b2 b1) *)
 Definition cfgA := mk_cfg 4 false false false true 0.
